@@ -1,4 +1,4 @@
-package main
+package main_test
 
 // C03 — utility methods report the value of their defining formula.
 
